@@ -18,6 +18,7 @@ pub mod c16;
 pub mod c17;
 pub mod c18;
 pub mod c19;
+pub mod c20;
 pub mod sweep;
 
 use crate::run::{Acc, Ctx};
@@ -62,6 +63,7 @@ registry! {
     "C17" => c17,
     "C18" => c18,
     "C19" => c19,
+    "C20" => c20,
 }
 
 use crate::mon::Mon;
